@@ -433,7 +433,9 @@ def batches(rng, tier):
             ops.append(f"hist w {txt(t)} - g,p,g,p,g,p,s1,g,p,s0,p")
             ops.append(f"perr w {txt(t)} - g lit 97")
             ops.append(f"gp w {txt(t)} - - rep.lit:{c} rep.alt.seq.lit:10.lit:{c}.seq.lit:97.not.lit:10")
-            ops.append(f"gp w {txt(t + [10, c, c])} - g,p alt.str:{c},10.str:{c} seq.opt.lit:10.rep.cset:{c},97")
+            ops.append(f"gp w {txt(t + [10, c, c])} - g,p eps alt.str:{c},10.str:{c}")
+            ops.append(f"gp w {txt(t + [10, c, c])} - g,p eps seq.opt.lit:10.rep.cset:{c},97")
+            ops.append(f"gp w {txt(t + [10, c, c])} - g,p rep.lit:10 alt.str:{c},10.str:{c}")
     for c in [0x8A, 0xFF, 0x0D, 0x0, 0x0B, 0x0C, 0x7F, 0x80]:
         for t in ([c], [c, 97], [97, c, 10, c]):
             ops.append(f"hist c {txt(t)} - g,p,g,p,g,p,s1,g,p,s0,p")
